@@ -147,8 +147,14 @@ static int find_by_ptr(var p) {
   return best;
 }
 
+/* retype <mode>: the next container made by mk() is first constructed with scalar element types and some elements, and
+ * only then becomes a container of the wanted types: 1 = assign from an empty container of those types, 2 = assign from
+ * an empty Tuple (Array / List: element type becomes Ref), 3 = (managed only) it is the copy of an empty container */
+static int retype_mode = 0;
+
 static var mk(int h, int kind, int cls, var a0, var a1) {
   var type = NULL; var args = NULL;
+  var t_seq_int = tuple(Int, $I(1), $I(2), $I(3)); var t_map_int = tuple(Int, Int, $I(1), $I(2), $I(3), $I(4)); var t_empty = tuple();
   /* all temporaries at function scope: $() objects die with their enclosing block */
   /* new(Ref|Box, x) dereferences x when x is itself a pointer object; wrap it so the new object points at x */
   var t_id = tuple($I(h)); var t_a0 = tuple($R(a0)); var t_ref = tuple(Ref); var t_intref = tuple(Int, Ref);
@@ -166,7 +172,22 @@ static var mk(int h, int kind, int cls, var a0, var a1) {
     case K_TUP: type = Tuple; args = t_none; break;
     case K_ARRB: type = Array; args = t_box; break;
   }
-  var r = cls is C_MANAGED ? new_with(type, args) : cls is C_ROOT ? new_root_with(type, args) : new_raw_with(type, args);
+  var r = NULL;
+  bool seq = kind is K_ARR or kind is K_LST or kind is K_ARRB, map = kind is K_TAB or kind is K_TABR or kind is K_TRE;
+  int mode = (seq or map) ? retype_mode : 0;
+  if (seq or map) { retype_mode = 0; }
+  if (mode is 3 and cls is C_MANAGED) {
+    var src = new_raw_with(type, args);
+    r = copy(src);
+    del_raw(src);
+  } else if (mode) {
+    var first = seq ? t_seq_int : t_map_int;
+    r = cls is C_MANAGED ? new_with(type, first) : cls is C_ROOT ? new_root_with(type, first) : new_raw_with(type, first);
+    if (mode is 2 and (kind is K_ARR or kind is K_LST)) { assign(r, t_empty); }
+    else { var src = new_raw_with(type, args); assign(r, src); del_raw(src); }
+  } else {
+    r = cls is C_MANAGED ? new_with(type, args) : cls is C_ROOT ? new_root_with(type, args) : new_raw_with(type, args);
+  }
   led[h].used = true; led[h].ptr = r; led[h].kind = kind; led[h].cls = cls; led[h].dtor = 0; led[h].released = 0;
   led[h].explicit_del = false; led[h].seq = ++alloc_seq;
   if (h > led_hi) { led_hi = h; }
@@ -256,7 +277,8 @@ static void do_op(char** w, int n) {
   const char* op = w[0];
   #define OP(s) (strcmp(op, s) is 0)
   var gc = current(GC);
-  if (OP("new")) {                       /* new h kind cls [target | residue] */
+  if (OP("retype")) { retype_mode = atoi(w[1]); }
+  else if (OP("new")) {                       /* new h kind cls [target | residue] */
     int h = hnd(w[1]); int kind = kind_of(w[2]); int cls = w[3][0] is 'm' ? C_MANAGED : (w[3][1] is 'o' ? C_ROOT : C_RAW);
     var a0 = NULL;
     if (kind is K_REF or kind is K_BOX) { a0 = P(hnd(w[4])); }
